@@ -358,7 +358,7 @@ impl C18 {
                 let mut c = gen_dispatch_case(g, 6, &CorridorOpts { max_stages: 6, p_lockout: 0.2, p_branch: 0.3, ..Default::default() });
                 while c.trains.len() < 3 {
                     let t = c.trains[0].clone();
-                    c.trains.push(CorrTrain { east: !t.east, branch: t.branch, train: t.train });
+                    c.trains.push(CorrTrain { east: !t.east, branch: t.branch, train: t.train, from: None, to: None });
                 }
                 Some(c)
             }
